@@ -111,9 +111,17 @@ def real_replay(job, sim_result):
                 cwd = absp(op.get("cwd", "."))
                 bdir = os.path.normpath(os.path.join(cwd, op.get("build_dir", "build")))
                 before = _walk(bdir)
-                env = {"PATH": REAL_BIN + ":/venv/bin:/usr/bin:/bin", "SOURCE_DATE_EPOCH": W.SOURCE_DATE_EPOCH, "HOME": "/nonexistent",
+                side = os.path.join(base, "side-real")
+                os.makedirs(os.path.join(side, "tmp"), exist_ok=True)
+                os.makedirs(os.path.join(side, "home"), exist_ok=True)
+                env = {"PATH": REAL_BIN + ":/venv/bin:/usr/bin:/bin", "SOURCE_DATE_EPOCH": W.SOURCE_DATE_EPOCH,
+                       "HOME": os.path.join(side, "home"), "TMPDIR": os.path.join(side, "tmp"),  # like the simulated world: its own scratch and home
                        "LANG": "C.UTF-8", "LC_ALL": "C.UTF-8", "PYTHONDONTWRITEBYTECODE": "1", "PYTHONHASHSEED": str(job.get("hashseed", 0)),
                        "PYTHONPATH": REAL_SITE, "NSIM_REAL_FAULTS": json.dumps(faults)}
+                for k_, v_ in (op.get("env") or {}).items():
+                    env[k_] = v_.replace("$ROOT", root).replace("$SIDE", side)
+                    if k_ in ("HOME", "TMPDIR"):
+                        os.makedirs(env[k_], exist_ok=True)
                 if os.environ.get("NANOEMOJI_SRC"):  # a patched scratch copy of the sources is under test
                     env["PYTHONPATH"] = os.environ["NANOEMOJI_SRC"] + ":" + REAL_SITE
                 p = subprocess.run(["/venv/bin/nanoemoji"] + [a.replace("$ROOT", root) for a in op["argv"]], cwd=cwd, env=env,
